@@ -606,7 +606,8 @@ fn main() {
         run_specs(&corpus, "c", &mut out, &mut st, &mut loaded, &mut get_lang);
     }
     let mut rng = Rng::new(seed_from_env());
-    let langs: Vec<String> = if only.is_empty() { zoo::list() } else { only };
+    // + C06's private grammars (sub-directories of a zoo entry, invisible to zoo::list())
+    let langs: Vec<String> = if only.is_empty() { zoo::list().into_iter().chain(["twofld/nest".to_string()]).collect() } else { only };
     let docs_per_lang = if thorough { 60 } else { 10 };
     let mut case_no = 0usize;
     for id in langs {
